@@ -19,6 +19,7 @@ void vf_reach(const char* label);
 void vf_spawn(void (*fn)(void*), void* arg);
 void vf_atomic_begin();
 void vf_atomic_end();
+void vf_sched_point();  // a point where the scheduler may switch threads (no other effect)
 int vf_self();
 void vf_join_all();
 bool vf_any_stuck();
